@@ -1,7 +1,7 @@
 ------------------------------- MODULE Trace_Ext -------------------------------
 (* Extended conformance (not one of the twenty properties): recorded results of  *)
 (* the extractors of the real library against spec/Extract.tla.                  *)
-EXTENDS Ztp, Dhcp6Mods, Json, IOUtils, TLC
+EXTENDS ZtpCircuit, Json, IOUtils, TLC
 Trace == ndJsonDeserialize(IOEnv.VH_TRACE)
 NShards == atoi(IOEnv.VH_SHARDS)
 N == Len(Trace)
@@ -45,6 +45,9 @@ Agree(e) ==
                          [] e.fn = "Request" -> RequestM(e["in"], xid, e.mods)
                          [] e.fn = "Reply" -> ReplyM(e["in"], e.mods)
               IN e.out.ok = x.ok /\ (x.ok => e.out.v = x.v)
+         [] e.op \in {"Circ4", "Circ6"} ->
+              LET x == IF e.op = "Circ4" THEN Circuit4(e.pkt) ELSE Circuit6(e.msg) IN
+              e.st = x.st /\ (x.st = "ok" => e.slot = x.slot /\ e.mod = x.mod /\ e.port = x.port /\ e.subport = x.subport /\ e.vlan = x.vlan)
          [] OTHER -> FALSE
 
 ShardLo(k) == ((k - 1) * N) \div NShards + 1
